@@ -3,7 +3,10 @@
 //! `cargo +nightly test --doc --offline` (error codes are only checked on nightly).  The twins are
 //! `no_run`: they are only type-checked, nothing of the analysed crate is executed.
 //!
-//! The crate names `rosu_map` as an external user would.
+//! The crate names `rosu_map` as an external user would and uses its public API only, so that
+//! renaming private items cannot break a witness.  Privacy facts (private fields of `SliderPath`,
+//! `CurveBuffers`, the raw-pointer buffer, the unreachable driver internals) are checked from the
+//! compiler's effective-visibility table by the PV rule instead.
 
 /// W1 (C18): a second curve cannot be computed with `bufs` while a `BorrowedCurve` borrowed
 /// from `bufs` is alive.
@@ -32,58 +35,6 @@
 /// ```
 pub struct W1;
 
-/// W2 (C18, closed world of the cache-invalidation rule): the key fields and the cache of a
-/// `SliderPath` cannot be touched directly.
-///
-/// ```compile_fail,E0616
-/// use rosu_map::section::general::GameMode;
-/// use rosu_map::section::hit_objects::SliderPath;
-/// let mut path = SliderPath::new(GameMode::Osu, Vec::new(), None);
-/// path.expected_dist = Some(3.0); // private field
-/// ```
-///
-/// ```compile_fail,E0616
-/// use rosu_map::section::general::GameMode;
-/// use rosu_map::section::hit_objects::SliderPath;
-/// let mut path = SliderPath::new(GameMode::Osu, Vec::new(), None);
-/// path.control_points.clear(); // private field
-/// ```
-///
-/// ```compile_fail,E0616
-/// use rosu_map::section::general::GameMode;
-/// use rosu_map::section::hit_objects::SliderPath;
-/// let mut path = SliderPath::new(GameMode::Osu, Vec::new(), None);
-/// let _ = path.curve.take(); // private field
-/// ```
-///
-/// twin:
-/// ```no_run
-/// use rosu_map::section::general::GameMode;
-/// use rosu_map::section::hit_objects::SliderPath;
-/// let mut path = SliderPath::new(GameMode::Osu, Vec::new(), None);
-/// *path.expected_dist_mut() = Some(3.0);
-/// path.control_points_mut().clear();
-/// path.clear_curve();
-/// ```
-pub struct W2;
-
-/// W3 (C18): a `SliderPath` cannot be built with a struct literal outside the crate (a literal
-/// could pre-fill the cache).
-///
-/// ```compile_fail,E0451
-/// use rosu_map::section::general::GameMode;
-/// use rosu_map::section::hit_objects::SliderPath;
-/// let _ = SliderPath { mode: GameMode::Osu, control_points: Vec::new(), expected_dist: None, curve: None };
-/// ```
-///
-/// twin:
-/// ```no_run
-/// use rosu_map::section::general::GameMode;
-/// use rosu_map::section::hit_objects::SliderPath;
-/// let _ = SliderPath::new(GameMode::Osu, Vec::new(), None);
-/// ```
-pub struct W3;
-
 /// W4 (C18): the cached curve cannot be (re)filled while the `&mut Vec` handed out by
 /// `control_points_mut()` is alive, so a write through it can never be followed by a stale cache.
 ///
@@ -107,23 +58,6 @@ pub struct W3;
 /// ```
 pub struct W4;
 
-/// W5 (C18, closed world of the kill-before-use rule): the scratch vectors of `CurveBuffers`
-/// cannot be touched from outside.
-///
-/// ```compile_fail,E0616
-/// use rosu_map::section::hit_objects::CurveBuffers;
-/// let bufs = CurveBuffers::default();
-/// let _ = bufs.path.len(); // private field
-/// ```
-///
-/// twin:
-/// ```no_run
-/// use rosu_map::section::hit_objects::CurveBuffers;
-/// let bufs = CurveBuffers::default();
-/// let _ = bufs.clone();
-/// ```
-pub struct W5;
-
 /// W6 (C20): the tick buffer cannot be modified while a `SliderEventsIter` over it is alive.
 ///
 /// ```compile_fail,E0499
@@ -146,38 +80,3 @@ pub struct W5;
 /// ```
 pub struct W6;
 
-/// W7 (C01, who-may-touch of the raw-pointer buffer): `HitObjectsState::point_split` is private.
-///
-/// ```compile_fail,E0616
-/// use rosu_map::DecodeState;
-/// use rosu_map::section::hit_objects::HitObjectsState;
-/// let mut state = HitObjectsState::create(14);
-/// state.point_split.clear(); // private field
-/// ```
-///
-/// twin:
-/// ```no_run
-/// use rosu_map::DecodeState;
-/// use rosu_map::section::hit_objects::HitObjectsState;
-/// let mut state = HitObjectsState::create(14);
-/// state.curve_points.clear();
-/// ```
-pub struct W7;
-
-/// W8 (C08, single driver): the line reader and the driver internals cannot be named from outside;
-/// every decoder goes through `DecodeBeatmap::decode`.
-///
-/// ```compile_fail,E0603
-/// use rosu_map::reader::Decoder; // private module
-/// ```
-///
-/// ```compile_fail,E0603
-/// use rosu_map::decode::parse_section; // private module
-/// ```
-///
-/// twin:
-/// ```no_run
-/// use rosu_map::{DecodeBeatmap, Beatmap};
-/// let _ = Beatmap::decode(&b"osu file format v14"[..]).unwrap();
-/// ```
-pub struct W8;
